@@ -20,6 +20,13 @@ ASSUME \A b1 \in 0..255 : /\ Bits2Int(<<b1>>) = b1 \div Pow2(8 - QLen)
                                                              /\ Bits2Int(<<b1, b2, 255 - b2>>) = Bits2Int(<<b1>>)
 ASSUME Bits2Int(<<>>) = 0
 
+\* non-vacuity of the range boundaries: which of r = 1, r = N-1, s = 1, s = N-1 occur in VALID signatures on this curve
+\* (r depends on the nonce only; s is looked for with d = 1).  Printed once; the check records it and insists that
+\* r = N-1 is reached on at least one model curve.
+RsReached == {Mul(kk, G)[2] % N : kk \in {k2 \in 1..(N - 1) : Mul(k2, G)[1] = 0}}
+SsReached == {sg[3] : sg \in {s2 \in {Sign(1, zz, kk) : zz \in 0..(N - 1), kk \in 1..(N - 1)} : s2[1] = "ok"}}
+ASSUME PrintT(<<"BOUNDARY", 1 \in RsReached, (N - 1) \in RsReached, 1 \in SsReached, (N - 1) \in SsReached>>)
+
 Sigs == {Sign(d, z, kk) : kk \in 1..(N - 1)}
 SignVerifies == ph = 0 => LET Q == Pub(d) IN \A sg \in Sigs : sg[1] = "ok" => Verify(Q, z, sg[2], sg[3])
 SignReduces  == ph = 0 => \A kk \in 1..(N - 1) : Sign(d, z, kk) = Sign(d, z % N, kk)
